@@ -317,6 +317,37 @@ func nestings(k int) [][][]oracle.Pt {
 	return out
 }
 
+// TwoHoles: the outer square [0,6]^2 with two disjoint, non-touching rectangles from the lattice
+// {1..5}^2 inside it (side by side, stacked, diagonal, ...), in the given orientation combos of the
+// two inner contours (outer counter clockwise).
+func TwoHoles(combos [][2]bool) [][][]oracle.Pt {
+	type rc struct{ x0, y0, x1, y1 int }
+	var all []rc
+	for x0 := 1; x0 <= 5; x0++ {
+		for x1 := x0 + 1; x1 <= 5; x1++ {
+			for y0 := 1; y0 <= 5; y0++ {
+				for y1 := y0 + 1; y1 <= 5; y1++ {
+					all = append(all, rc{x0, y0, x1, y1})
+				}
+			}
+		}
+	}
+	var out [][][]oracle.Pt
+	for i, a := range all {
+		for _, b := range all[i+1:] {
+			sepX := a.x1 < b.x0 || b.x1 < a.x0
+			sepY := a.y1 < b.y0 || b.y1 < a.y0
+			if !sepX && !sepY {
+				continue
+			}
+			for _, o := range combos {
+				out = append(out, [][]oracle.Pt{rect(0, 0, 6, 6, true), rect(a.x0, a.y0, a.x1, a.y1, o[0]), rect(b.x0, b.y0, b.x1, b.y1, o[1])})
+			}
+		}
+	}
+	return out
+}
+
 func families(tier string) []fw.Family {
 	L3, L4 := oracle.Lattice(3), oracle.Lattice(4)
 	tri3r := oracle.ContoursModRotation(L3, 3)
@@ -326,6 +357,7 @@ func families(tier string) []fw.Family {
 		family("pent(L3)/rot", single(oracle.ContoursModRotation(L3, 5)), 1, 1e-8, 1e-6, false),
 		family("tri(L3)/rot + tri(L3)/rot (two contours)", pairs(tri3r, tri3r), 1, 1e-8, 1e-6, false),
 		family("rectilinear outer+inner+bar (L5), CCW/CW/CCW", rectilinear3(5, [][3]bool{{true, false, true}}, true), 1, 1e-8, 1e-6, false),
+		family("square with two separate inner rectangles (L7), both clockwise", TwoHoles([][2]bool{{false, false}}), 1, 1e-8, 1e-6, false),
 		family("nested rectangles, 3 levels, all orientations", nestings(3), 1, 1e-8, 1e-6, false),
 		family("nested rectangles, 4 levels, all orientations", nestings(4), 1, 1e-8, 1e-6, false),
 		family("quad(L3)/rot, coarse grid eps=0.25 on x4 lattice", single(oracle.ContoursModRotation(L3, 4)), 4, 0.25, 0.5, false),
@@ -333,6 +365,7 @@ func families(tier string) []fw.Family {
 	}
 	if tier == "thorough" {
 		fs = append(fs,
+			family("square with two separate inner rectangles (L7), all orientations", TwoHoles([][2]bool{{false, false}, {true, false}, {false, true}, {true, true}}), 1, 1e-8, 1e-6, false),
 			family("nested rectangles, 5 levels, all orientations", nestings(5), 1, 1e-8, 1e-6, false),
 			family("pent(L4)/rot", single(oracle.ContoursModRotation(L4, 5)), 1, 1e-8, 1e-6, false),
 			family("hex(L3)/rot", single(oracle.ContoursModRotation(L3, 6)), 1, 1e-8, 1e-6, false),
